@@ -38,12 +38,12 @@ func VerifC13PurgeFaults() {
 	case 0, 1:
 		cr.allCalls = true
 		cr.transient = true
-		cr.crashAt = vChoose("faultAt", maxCalls) + 1
+		cr.crashAt = vInt("faultAt", 1, maxCalls) // symbolic fault point
 	case 2:
-		cr.crashAt = vChoose("crashAt", 12) + 1
+		cr.crashAt = vInt("crashAt", 1, 12)
 		cr.landed = vChoose("landed", 2) == 1
 	case 3:
-		cr.crashAt = 20 + vChoose("crashAt", 5) // each chunk costs a Delete and a Put: dies with ten or more chunks stored
+		cr.crashAt = vInt("crashAt", 20, 24) // each chunk costs a Delete and a Put: dies with ten or more chunks stored
 		cr.landed = true
 		mode = 2
 		vCover("resumed-after-ten-chunks")
